@@ -15,6 +15,7 @@ Property theorems only; helper lemmas live in LC/Proofs/MatchWF.lean.
 -/
 import LC.Model.V2Match
 import LC.Proofs.MatchWF
+import LC.Gen.V2Tables
 
 namespace LC.V2Match
 
@@ -56,5 +57,12 @@ theorem match_no_panic {C : Type} (N : NumEnv C)
 theorem prepare_wf (crc : Text → Nat) (wordOf : Nat → Text) (q : Nat) (d : KDoc) :
     (prepare crc wordOf q d).WF :=
   prepare_wf' crc wordOf q d
+
+/-- `match_sorted` is about the model's comparator; the comparator of the source as it is now
+(field order and operators read off the AST of `Matches.Less` on every run) compares Confidence
+first, exactly (`!=` then `>`): any other shape — a tolerance, a rounded comparison — is not
+recognised by the extractor and leaves this list without its first entry. -/
+theorem matchLess_confidence_first :
+    LC.Gen.V2.matchLessFields.head? = some ("Confidence", ">") := by decide
 
 end LC.V2Match
